@@ -9,7 +9,7 @@ while read name dpath feat props; do
   [ -z "$name" ] && continue
   [ "$feat" = "-" ] && feat=""
   echo "=== $name ($props)"
-  DEMO_PATH=$dpath FEAT="${feat/=/ }" /verif/lib/seed_confirm.sh $name /tmp/seedq/$name $props 2>&1 | grep -E "^suite|^demo|^check|PATCH"
+  DEMO_PATH=$dpath FEAT="${feat/=/ }" /verif/lib/seed_confirm.sh $name ${SRC_ROOT:-/tmp/seedq}/$name $props 2>&1 | grep -E "^suite|^demo|^check|PATCH"
 done < $Q
 git -C /repo worktree remove --force $D/repo
 rm -rf $D
